@@ -95,6 +95,7 @@ pub struct Env {
     /// weak handles of actors created by client ops (the scenario runner's reaper stops them if clients get stuck)
     pub reaper: std::sync::Mutex<Vec<(u32, Box<dyn DynWeak>)>>,
     pub burst_next: std::sync::Mutex<std::collections::HashMap<u16, u32>>,
+    pub rendezvous: [AtomicU32; 8],
     pub prog: Program,
     pub next_client: AtomicU16,
     pub clients_started: AtomicU32,
@@ -107,6 +108,7 @@ impl Env {
         Arc::new(Env {
             reaper: Default::default(),
             burst_next: Default::default(),
+            rendezvous: Default::default(),
             prog,
             next_client: AtomicU16::new(n),
             clients_started: AtomicU32::new(0),
@@ -656,6 +658,30 @@ async fn exec_op(env: &Arc<Env>, c: u16, i: u16, op: Op, slots: &mut Vec<Slot>) 
                 _ => Res::Skipped,
             };
             end(c, i, r);
+        }
+        Op::Rendezvous { id, parties, jitter } => {
+            begin(c, i, OpK::Rendezvous, Hk::None, Path::NA, u32::MAX, 0, id as u16, jitter as u64);
+            #[cfg(all(feature = "mt", not(feature = "l1")))]
+            {
+                let cell = &env.rendezvous[id as usize % 8];
+                cell.fetch_add(1, Ordering::SeqCst);
+                let t0 = std::time::Instant::now();
+                while cell.load(Ordering::SeqCst) < parties as u32 && t0.elapsed() < std::time::Duration::from_millis(20) {
+                    std::hint::spin_loop();
+                }
+                let t1 = std::time::Instant::now();
+                let d = std::time::Duration::from_nanos(jitter as u64 * 10);
+                while t1.elapsed() < d {
+                    std::hint::spin_loop();
+                }
+            }
+            #[cfg(not(all(feature = "mt", not(feature = "l1"))))]
+            {
+                let _ = (parties, &env.rendezvous);
+                rt::yield_now().await;
+            }
+            // (no end-of-op log entry before the racing operation: the log lock would serialise the racers)
+            end(c, i, Res::Ok);
         }
         Op::Yield => {
             begin(c, i, OpK::Yield, Hk::None, Path::NA, u32::MAX, 0, 0, 0);
